@@ -9,6 +9,7 @@ import (
 	"reflect"
 	"sort"
 	"strings"
+	"sync"
 	"testing"
 
 	"github.com/relab/hotstuff"
@@ -1627,11 +1628,208 @@ func c18Execute(v *verifOut) {
 	}
 }
 
+// ---- concurrent drains: `twins run --concurrency N` calls NextScenario of one source from N workers ----
+
+// c18DrainConcurrently lets w goroutines call next until io.EOF; it returns what they were given.
+func c18DrainConcurrently(w int, next func() (Scenario, error)) (got []Scenario, panics []string, errs int) {
+	var mu sync.Mutex
+	var wg sync.WaitGroup
+	start := make(chan struct{})
+	for i := 0; i < w; i++ {
+		wg.Add(1)
+		go func() {
+			defer wg.Done()
+			<-start
+			var mine []Scenario
+			var myPanics []string
+			myErrs := 0
+			for calls := 0; calls < 1_000_000; calls++ {
+				s, err, p := func() (s Scenario, err error, p string) {
+					defer func() {
+						if r := recover(); r != nil {
+							p = fmt.Sprint(r)
+						}
+					}()
+					s, err = next()
+					return
+				}()
+				if p != "" {
+					myPanics = append(myPanics, p)
+					break
+				}
+				if err == io.EOF {
+					break
+				}
+				if err != nil {
+					myErrs++
+					break
+				}
+				mine = append(mine, s)
+			}
+			mu.Lock()
+			got = append(got, mine...)
+			panics = append(panics, myPanics...)
+			errs += myErrs
+			mu.Unlock()
+		}()
+	}
+	close(start)
+	wg.Wait()
+	return
+}
+
+func c18Concurrent(v *verifOut, rounds int) {
+	type cfg struct {
+		st   c18Set
+		seed *int64
+	}
+	s9 := int64(9)
+	cfgs := []cfg{
+		{c18Set{Nodes: 1, Twins: 1, Parts: 1, Views: 1}, nil}, // 0 scenarios
+		{c18Set{Nodes: 1, Twins: 0, Parts: 1, Views: 1}, nil}, // 1
+		{c18Set{Nodes: 3, Twins: 0, Parts: 1, Views: 1}, nil}, // 3
+		{c18Set{Nodes: 3, Twins: 0, Parts: 1, Views: 2}, nil}, // 9
+		{c18Set{Nodes: 3, Twins: 1, Parts: 2, Views: 1}, nil}, // 12
+		{c18Set{Nodes: 5, Twins: 0, Parts: 1, Views: 3}, nil}, // 125
+		{c18Set{Nodes: 4, Twins: 1, Parts: 2, Views: 2}, nil}, // 324
+		{c18Set{Nodes: 4, Twins: 1, Parts: 2, Views: 2}, &s9}, // 324, shuffled
+		{c18Set{Nodes: 3, Twins: 0, Parts: 2, Views: 3}, nil}, // 216
+	}
+	sc := v.Stream("concurrent", "drain_mismatches", 8)
+	for _, c := range cfgs {
+		optSt := c.st
+		g1, panicked, _ := c18NewGen(optSt.settings())
+		if panicked {
+			continue
+		}
+		o := c18Opts{lp: append([]View(nil), g1.leadersPartitions...), keyIdx: map[string]int{}}
+		for i, opt := range o.lp {
+			o.keyIdx[c18ViewKey(opt)] = i
+		}
+		n, views := len(o.lp), int(c.st.Views)
+		mk := func() *Generator {
+			g, _, _ := c18NewGen(c.st.settings())
+			if c.seed != nil {
+				c18Shuffle(g, *c.seed)
+			}
+			return g
+		}
+		// the reference: one goroutine
+		ref := mk()
+		announced := ref.Remaining()
+		var single []Scenario
+		for {
+			s, kind := c18Next(ref)
+			if kind != c18Scen {
+				break
+			}
+			single = append(single, s)
+		}
+		var buf bytes.Buffer
+		wr, _ := ToJSON(ref.Settings(), &buf)
+		for _, s := range single {
+			_ = wr.WriteScenario(s)
+		}
+		_ = wr.Close()
+		want := map[uint64]int{}
+		for _, s := range single {
+			code, _ := c18Code(s, o.keyIdx, n, views)
+			want[code]++
+		}
+		for _, kind := range []string{"generator", "json"} {
+			for _, w := range []int{2, 8} {
+				failed := false
+				for r := 0; r < rounds && !failed; r++ {
+					var next func() (Scenario, error)
+					var remaining func() int64
+					if kind == "generator" {
+						g := mk()
+						next, remaining = g.NextScenario, g.Remaining
+					} else {
+						src, err := FromJSON(bytes.NewReader(buf.Bytes()))
+						if err != nil {
+							v.Oracle(false, "json:read-error", err.Error(), c.st.meta())
+							break
+						}
+						next, remaining = src.NextScenario, src.Remaining
+					}
+					got, panics, errs := c18DrainConcurrently(w, next)
+					meta := c.st.meta()
+					meta["source"], meta["goroutines"], meta["announced"], meta["delivered"], meta["round"] = kind, w, announced, len(got), r
+					if c.seed != nil {
+						meta["seed"] = *c.seed
+					}
+					v.Count("concurrent_drains")
+					v.Count(fmt.Sprintf("concurrent_%s_w=%d", kind, w))
+					v.Seen(fmt.Sprintf("concurrent %v %s %d %d", c.st, kind, w, r), len(single) >= w, meta)
+					if len(panics) > 0 || errs > 0 {
+						meta["panic"] = fmt.Sprint(panics)
+						v.Oracle(false, "source.concurrent:panic", fmt.Sprintf("NextScenario of the %s source panics or fails when called from %d goroutines: %v", kind, w, panics), meta)
+						failed = true
+					}
+					have := map[uint64]int{}
+					codes := make([]uint64, 0, len(got))
+					bad := false
+					for _, s := range got {
+						code, b := c18Code(s, o.keyIdx, n, views)
+						bad = bad || b
+						have[code]++
+						codes = append(codes, code)
+					}
+					twice, missing := 0, 0
+					for code, k := range have {
+						if k > want[code] {
+							twice += k - want[code]
+						}
+					}
+					for code, k := range want {
+						if have[code] < k {
+							missing += k - have[code]
+						}
+					}
+					meta["delivered_twice"], meta["missing"] = twice, missing
+					if twice > 0 || missing > 0 || bad || int64(len(got)) != announced {
+						v.Oracle(false, "source.concurrent:delivered-scenarios-differ-from-a-sequential-drain",
+							fmt.Sprintf("%s source drained by %d goroutines: %d announced, %d delivered, %d delivered twice, %d missing", kind, w, announced, len(got), twice, missing), meta)
+						failed = true
+					} else {
+						v.Oracle(true, "", "", nil)
+					}
+					if rem := remaining(); rem != 0 {
+						v.Oracle(false, "source.concurrent:remaining-not-zero-at-the-end", fmt.Sprintf("Remaining() = %d after the %s source was drained by %d goroutines", rem, kind, w), meta)
+						failed = true
+					} else {
+						v.Oracle(true, "", "", nil)
+					}
+					// kernel: for the unshuffled order the sorted delivered scenarios are the model's sequence
+					if r == 0 && c.seed == nil {
+						sort.Slice(codes, func(a, b int) bool { return codes[a] < codes[b] })
+						evs := make([]string, len(codes))
+						for i, code := range codes {
+							evs[i] = fmt.Sprintf("(%s,EvScen %s)", gZ(announced-int64(i)), gN(code))
+						}
+						v.Case(sc, fmt.Sprintf("(%s,%s,None,%s)", gNat(n), gNat(views), gList(evs)), meta)
+					}
+				}
+			}
+		}
+	}
+}
+
+// TestVerifC18Race is the concurrent-drain stream alone; the thorough tier runs it under -race.
+func TestVerifC18Race(t *testing.T) {
+	v := verifNew("C18")
+	v.prop = "C18race"
+	c18Concurrent(v, 6)
+	v.Close("concurrent drains of both scenario sources under the race detector")
+}
+
 func TestVerifC18(t *testing.T) {
 	v := verifNew("C18")
 	c18Unit(v)
 	c18Generator(v)
 	c18Verdict(v)
 	c18Execute(v)
+	c18Concurrent(v, v.Pick(12, 60))
 	v.Close("generator: (settings, views, plain/shuffle seed) drains, non-trivial = at least 2 options and 2 views; verdict: sets of commit logs, non-trivial = at least two non-twin replicas one of which committed something")
 }
